@@ -19,6 +19,7 @@ const (
 	rootHeap  // heap key
 	rootSlice // element of a slice value
 	rootUnknown
+	rootFresh // field of an object allocated by this very function: invisible to callers
 )
 
 type addrRoot struct {
@@ -34,7 +35,7 @@ func staticRoot(v ssa.Value) addrRoot {
 	case *ssa.Alloc:
 		elem := v.Type().(*types.Pointer).Elem()
 		if _, isStruct := elem.Underlying().(*types.Struct); isStruct && v.Heap && !opaqueStruct(elem) {
-			return addrRoot{kind: rootHeap, keys: allFieldKeys(elem)}
+			return addrRoot{kind: rootFresh, keys: allFieldKeys(elem)}
 		}
 		return addrRoot{kind: rootAlloc, alloc: v}
 	case *ssa.Global:
@@ -45,6 +46,10 @@ func staticRoot(v ssa.Value) addrRoot {
 			r := staticRoot(v.X)
 			if r.kind == rootAlloc {
 				return r
+			}
+			if r.kind == rootFresh {
+				f := st.Underlying().(*types.Struct).Field(v.Field)
+				return addrRoot{kind: rootFresh, keys: []string{heapKey(st, f.Name())}}
 			}
 		}
 		switch x := v.X.(type) {
@@ -109,7 +114,7 @@ func (fv *FuncVC) loopModSet(body []*ssa.BasicBlock) *modSet {
 			ms.cells[r.alloc] = true
 		case rootGlobal:
 			ms.globals[r.global] = true
-		case rootHeap:
+		case rootHeap, rootFresh:
 			for _, k := range r.keys {
 				ms.heap[k] = true
 			}
@@ -155,7 +160,11 @@ func (fv *FuncVC) loopModSet(body []*ssa.BasicBlock) *modSet {
 func (fv *FuncVC) havoc(ms *modSet, tag string) {
 	st := fv.cur
 	for a := range st.cells {
-		if ms.cells[a] || (ms.anyCall && fv.escaped[a]) {
+		esc := fv.escaped[a]
+		if esc && fv.closureOnly[a] && fv.inCall && !fv.curCallHasFuncArg {
+			esc = false // captured by a closure only, and this call cannot reach any closure
+		}
+		if ms.cells[a] || (ms.anyCall && esc) {
 			elem := a.Type().(*types.Pointer).Elem()
 			st.cells[a] = fv.freshWF("c_"+a.Name()+"_"+tag, elem)
 		}
